@@ -55,6 +55,20 @@ Theorem C10_decode_progress : forall (base : Z) (bytes : list N) (maxArr : Z) d 
 Proof. exact decode_from_progress. Qed.
 Print Assumptions C10_decode_progress.
 
+(** the typed accessors that create (ggufLayers, detectChatTemplate, createModel) and show (Capabilities) call on a decoded
+    file - Architecture, Kind, ChatTemplate, FileType, ParameterCount, with keyValue's checked assertion and its
+    [defaultValue[0]] index expression modelled as panicking primitives - never panic on the KV of ANY decoded file.
+    (The accessors of the model-load path - GraphSize, GQA, Strings/Uints/Floats - are NOT covered: they can panic and are
+    monitored on the implementation only, see notes/C10.md.) *)
+Theorem C10_accessors_total : forall base bytes maxArr d al,
+  decode_from base bytes maxArr = DOk d al -> accessors_ok (d_kv d) = true.
+Proof. exact accessors_total. Qed.
+Print Assumptions C10_accessors_total.
+
+(** ... and the hypothesis matters: on a KV that did not come out of the decoder ParameterCount panics *)
+Example C10_parameter_count_needs_decode : r_parameter_count [] = APanic PIndex.
+Proof. exact parameter_count_needs_decode. Qed.
+
 (** non-vacuity: the three outcomes exist, and a file declaring a 2^40-element array / a 2^63 string length /
     alignment 0 is an error with a small meter *)
 Definition tiny_ok : list N := [71;71;85;70; 3;0;0;0; 0;0;0;0;0;0;0;0; 0;0;0;0;0;0;0;0].
